@@ -695,7 +695,7 @@ def run(tier):
                   'pairs_unconstrained': 4, 'hash_pairs_judged': n // 2, 'triples_with_both_premises': 60,
                   'grid_expected_unequal': 500, 'grid_expected_equal': 100}
         for k, fl in floors.items():
-            if vac[k] < fl:
+            if vac[k] < fl and not found:
                 raise MachineryError('vacuity guard: %s = %d < %d' % (k, vac[k], fl))
         if vac['pairs_expected_equal'] + vac['pairs_expected_unequal'] + vac['pairs_expected_TypeError'] + \
                 vac['pairs_unconstrained'] != npair:
